@@ -122,5 +122,180 @@ def main():
     print(json.dumps(out, default=str))
 
 
+
+def task_c16(repo, verif):
+    """C16: every index entry loads; every node well formed; data elements / external code sets
+    defined; same-position siblings distinguishable; index keys unique; nodes addressable by the
+    path they report; paths unique; explicit map directory == packaged resources."""
+    import pyx12.map_if
+    import pyx12.params
+    import pyx12.map_index
+    import pyx12.codes
+    import pyx12.dataele
+    from pyx12.errors import EngineError
+    out = {'files': 0, 'nodes': 0, 'index_entries': 0, 'violations': [], 'by_kind': {}, 'checks': {}}
+
+    def viol(what, **kw):
+        d = {'what': what}
+        d.update(kw)
+        out['violations'].append(d)
+        out['by_kind'][what] = out['by_kind'].get(what, 0) + 1
+
+    def ck(name):
+        out['checks'][name] = out['checks'].get(name, 0) + 1
+    mdir, idx = map_files(repo)
+    out['index_entries'] = len(idx)
+    # index keys unambiguous
+    seen = {}
+    for ent in idx:
+        k = (ent['icvn'], ent['vriic'], ent['fic'], ent['tspc'])
+        ck('index key unique')
+        if k in seen and seen[k] != ent['file']:
+            viol('index key maps to two files', key=list(k), files=[seen[k], ent['file']])
+        seen[k] = ent['file']
+    mi = pyx12.map_index.map_index()
+    for ent in idx:
+        ck('index lookup')
+        got = mi.get_filename(ent['icvn'], ent['vriic'], ent['fic'], ent['tspc'])
+        if got != ent['file'] and seen.get((ent['icvn'], ent['vriic'], ent['fic'], ent['tspc'])) == ent['file']:
+            viol('index lookup returns another file', key=[ent['icvn'], ent['vriic'], ent['fic'], ent['tspc']], file=ent['file'], got=got)
+    param = pyx12.params.params()
+    dataele = pyx12.dataele.DataElements()
+    codes = pyx12.codes.ExternalCodes(None, param.get('exclude_external_codes'))
+    files = []
+    for ent in idx:
+        if ent['file'] not in files:
+            files.append(ent['file'])
+    for f in files:
+        ck('map file loads')
+        try:
+            m = pyx12.map_if.load_map_file(f, param)
+        except Exception as e:
+            viol('map file named by the index does not load', file=f, error='%s: %s' % (type(e).__name__, str(e)[:120]))
+            continue
+        out['files'] += 1
+        # explicit map directory gives the same tree
+        ck('explicit map directory == packaged')
+        try:
+            m2 = pyx12.map_if.load_map_file(f, param, mdir)
+            sig = lambda mm: [(type(n).__name__, getattr(n, 'id', None), n.get_path() if hasattr(n, 'get_path') else None,
+                               getattr(n, 'usage', None), getattr(n, 'pos', None), getattr(n, 'data_ele', None)) for n in walk(mm)]
+            if sig(m) != sig(m2):
+                viol('explicit map directory gives a different tree', file=f)
+        except Exception as e:
+            viol('explicit map directory load fails', file=f, error='%s: %s' % (type(e).__name__, str(e)[:120]))
+        paths = {}
+        for n in walk(m):
+            out['nodes'] += 1
+            kind = type(n).__name__
+            if kind == 'map_if':
+                continue
+            p = n.get_path()
+            # usages / repeats / positions
+            if kind in ('loop_if', 'segment_if', 'element_if', 'composite_if'):
+                ck('usage in R/S/N')
+                if getattr(n, 'usage', None) not in ('R', 'S', 'N'):
+                    viol('usage not R/S/N', file=f, path=p, usage=repr(getattr(n, 'usage', None)))
+            if kind == 'loop_if':
+                ck('loop repeat well formed')
+                r = n.repeat
+                if not (isinstance(r, str) and (r == '>1' or r.isdigit())):
+                    viol('loop repeat malformed', file=f, path=p, repeat=repr(r))
+            if kind == 'segment_if':
+                ck('segment max_use well formed')
+                r = n.max_use
+                if not (isinstance(r, str) and (r == '>1' or r.isdigit())):
+                    viol('segment max_use malformed', file=f, path=p, max_use=repr(r))
+                ck('children seq contiguous from 1')
+                seqs = [c.seq for c in n.children]
+                if seqs != list(range(1, len(seqs) + 1)):
+                    viol('segment children seq not contiguous from 1', file=f, path=p, seqs=seqs[:12])
+            if kind == 'composite_if':
+                ck('children seq contiguous from 1')
+                seqs = [c.seq for c in n.children]
+                if seqs != list(range(1, len(seqs) + 1)):
+                    viol('composite children seq not contiguous from 1', file=f, path=p, seqs=seqs[:12])
+            if kind in ('loop_if', 'segment_if'):
+                ck('position is an int')
+                if not isinstance(n.pos, int):
+                    viol('position not an int', file=f, path=p, pos=repr(n.pos))
+            if kind == 'element_if':
+                ck('data element defined')
+                try:
+                    dataele.get_by_elem_num(n.data_ele)
+                except Exception as e:
+                    viol('element refers to an undefined data element', file=f, path=p, data_ele=n.data_ele)
+                if n.external_codes:
+                    ck('external code set defined')
+                    if n.external_codes not in codes.codes and n.external_codes not in (param.get('exclude_external_codes') or ''):
+                        viol('element refers to an undefined external code set', file=f, path=p, external=n.external_codes)
+            # path uniqueness
+            if kind in ('loop_if', 'segment_if'):
+                ck('node path unique')
+                if p in paths:
+                    viol('two nodes report the same path', file=f, path=p)
+                paths[p] = n
+            # addressable by own path
+            if kind in ('loop_if', 'segment_if'):
+                ck('getnodebypath(own path) is the node')
+                try:
+                    g = m.getnodebypath(p)
+                    if g is not n:
+                        viol('getnodebypath(own path) returns another node', file=f, path=p, got=getattr(g, 'get_path', lambda: None)() if g is not None else None, got_kind=type(g).__name__)
+                except Exception as e:
+                    viol('getnodebypath(own path) fails', file=f, path=p, error='%s' % type(e).__name__)
+            if kind in ('loop_if', 'segment_if', 'element_if', 'composite_if'):
+                ck('getnodebypath2(own path) is the node')
+                try:
+                    g = m.getnodebypath2(p)
+                    if g is not n:
+                        viol('getnodebypath2(own path) returns another node', file=f, path=p, kind=kind,
+                             got=getattr(g, 'get_path', lambda: None)() if g is not None else None, got_kind=type(g).__name__)
+                except Exception as e:
+                    viol('getnodebypath2(own path) fails', file=f, path=p, kind=kind, error='%s' % type(e).__name__)
+            # same-position siblings distinguishable by id + qualifier
+            pm = getattr(n, 'pos_map', None)
+            if pm:
+                for pos, sibs in pm.items():
+                    if len(sibs) > 1:
+                        ck('same-position siblings distinguishable')
+                        keys = []
+                        for sb in sibs:
+                            if sb.is_segment():
+                                ke = sb.get_unique_key_id_element(None) if False else None
+                                quals = None
+                                try:
+                                    el = sb.guess_unique_key_id_element()
+                                    quals = tuple(sorted(el.valid_codes)) if el is not None else None
+                                except Exception:
+                                    quals = None
+                                keys.append((sb.id, quals))
+                            else:
+                                fs = sb.get_first_seg()
+                                quals = None
+                                if fs is not None:
+                                    try:
+                                        el = fs.guess_unique_key_id_element()
+                                        quals = tuple(sorted(el.valid_codes)) if el is not None else None
+                                    except Exception:
+                                        quals = None
+                                keys.append(('loop:' + (fs.id if fs is not None else '?'), quals))
+                        for i in range(len(keys)):
+                            for j in range(i + 1, len(keys)):
+                                a, b = keys[i], keys[j]
+                                if a[0] != b[0]:
+                                    continue
+                                if a[1] is None or b[1] is None or set(a[1]) & set(b[1]):
+                                    viol('same-position siblings cannot be told apart by id and qualifier', file=f, path=p, pos=pos,
+                                         a=sibs[i].get_path(), b=sibs[j].get_path(),
+                                         common=sorted(set(a[1] or ()) & set(b[1] or ()))[:5])
+    out['violations_total'] = len(out['violations'])
+    out['samples'] = out['violations'][:3]
+    return out
+
+
+TASKS['c16'] = task_c16
+
+
 if __name__ == '__main__':
     main()
